@@ -1,5 +1,6 @@
 import SwiftMT.Props.C05
 import SwiftMT.Props.C11
+import SwiftMT.Lemmas.RoundTrip
 /-
 C02 — MT round trip is stable (field level): for every content a field type accepts, serialising the parsed value
 gives a content the field type accepts again, with an equal value; hence the serialisation is a fixed point.
@@ -51,6 +52,53 @@ theorem stable_30 : Stable F30.parse F30.ser := by
     rw [C11.print_parse s d hp]
     unfold F30.parse Res.ofOption
     simp [hp]
+
+/-! ### Message level: what the serialisers write is read back exactly
+
+`to_mt_string` writes every field as `:tag:content` followed by CRLF and drops the last CRLF (`append_field`,
+`finalize_mt_string`); `to_mt_message` puts the block terminator behind it.  `renderFrom sep tail` is that text for a
+list of (tag, content) pairs.  The theorems below hold for ALL lists of well-formed tags and contents (`wfTag`: 2–4
+alphanumerics; `wfc`: no CR, no line starting with `:` or `-`, no trailing newline, no `-}` — the contents the field
+serialisers produce) and for the model of `MessageParser::extract_field` that the `extract` stream ties to the code. -/
+
+/-- Reading a rendered block with successive `extract_field` calls returns every content unchanged, in order, and ends
+complete — with LF or CRLF separators, with or without the terminator, duplicates allowed or tags distinct. -/
+theorem block_roundtrip (pre tail : Text) (hp : pre = [] ∨ pre = ['\r'])
+    (htail : tail = [] ∨ tail = ['\n', '-'] ∨ tail = ['\r', '\n', '-'])
+    (toks : List (Text × Text)) (s : PState) (hne : toks ≠ [])
+    (hwf : ∀ p ∈ toks, wfTag p.1 = true ∧ wfc p.2 = true)
+    (hr : s.rest = renderFrom (pre ++ ['\n']) tail toks)
+    (hd : s.allowDup = true ∨ ((toks.map (·.1)).Nodup ∧ ∀ t ∈ toks.map (·.1), t ∉ s.seen)) :
+    ∃ s', readAll s (toks.map (·.1)) = .ok (toks.map (·.2), s') ∧ isComplete s' = true :=
+  read_render pre tail hp htail toks s hne hwf hr hd
+
+/-- The serialiser's own spelling (CRLF, no terminator) parsed by a fresh parser: distinct tags. -/
+theorem serialised_block_reads_back (toks : List (Text × Text)) (hne : toks ≠ [])
+    (hwf : ∀ p ∈ toks, wfTag p.1 = true ∧ wfc p.2 = true) (hnd : (toks.map (·.1)).Nodup) :
+    ∃ s', readAll (PState.init (renderFrom ['\r', '\n'] [] toks)) (toks.map (·.1)) = .ok (toks.map (·.2), s') ∧
+      isComplete s' = true :=
+  read_render ['\r'] [] (Or.inr rfl) (Or.inl rfl) toks _ hne hwf rfl (Or.inr ⟨hnd, by intro t _; simp [PState.init]⟩)
+
+/-- Fixed point at block level: rendering what was read reproduces the text that was read. -/
+theorem block_fixed_point (sep tail : Text) (toks : List (Text × Text)) (cs : List Text)
+    (h : cs = toks.map (·.2)) : renderFrom sep tail ((toks.map (·.1)).zip cs) = renderFrom sep tail toks := by
+  subst h
+  congr 1
+  induction toks with
+  | nil => rfl
+  | cons p rest ih => simp [ih]
+
+/-- Non-vacuity of the block theorems: a concrete two-field block is well formed and is read back by evaluation. -/
+example : wfTag "32A".toList = true ∧ wfc "240315USD1000,00".toList = true ∧ wfc "LINE 1\nLINE 2".toList = true := by decide
+/-- the contents read are exactly `cs` and the parser ends complete -/
+def readsBack (text : Text) (tags cs : List Text) : Bool :=
+  match readAll (PState.init text) tags with
+  | .ok (r, s') => r == cs && isComplete s'
+  | .error _ => false
+example : readsBack (renderFrom ['\r', '\n'] [] [("20".toList, "REF1".toList), ("79".toList, "LINE 1\nLINE 2".toList)])
+    ["20".toList, "79".toList] ["REF1".toList, "LINE 1\nLINE 2".toList] = true := by decide
+/-- … and a content outside `wfc` (a line starting with a field marker) is *not* read back: the hypothesis is needed. -/
+example : readsBack (renderFrom ['\n'] [] [("79".toList, "A\n:20:B".toList)]) ["79".toList] ["A\n:20:B".toList] = false := by decide
 
 /-- Non-vacuity: concrete accepted contents. -/
 example : Ref.parse 16 "PAY/123".toList = .ok ⟨"PAY/123".toList⟩ := by decide
